@@ -25,6 +25,7 @@ type flowFunc struct {
 	line      uint32
 	compact   string
 	lean      string
+	names     string // status literals of this function: "e1=#truncated_input,…" (text with ' ' -> '_')
 	err       string // non-empty: could not be translated
 }
 
@@ -122,6 +123,9 @@ func (tr *flowTr) statusLit(e *a.Expr) *fexpr {
 	id, ok := tr.lits[k]
 	if !ok {
 		tr.nlit[cls]++
+		if flowPreseed != nil && tr.nlit[cls] == 5 {
+			tr.nlit[cls]++
+		}
 		id = tr.nlit[cls]
 		tr.lits[k] = id
 	}
@@ -537,6 +541,9 @@ func flowFile(pkg, filename string, src []byte) ([]flowFunc, error) {
 			continue
 		}
 		tr := &flowTr{tm: tm, vars: map[t.ID]int{}, lits: map[string]int{}, nlit: map[byte]int{}}
+		for k, v := range flowPreseed {
+			tr.lits[k] = v
+		}
 		readers := 0
 		for _, fld := range fn.In().Fields() {
 			if isIOReader(tm, fld.AsField().XType()) {
@@ -569,6 +576,20 @@ func flowFile(pkg, filename string, src []byte) ([]flowFunc, error) {
 		} else {
 			ff.compact = body.compact()
 			ff.lean = body.lean("  ")
+			var ns []string
+			for k, id := range tr.lits {
+				// k = class byte + qualifier + "." + text
+				txt := k[1:]
+				q := txt[:strings.Index(txt, ".")]
+				msg := txt[strings.Index(txt, ".")+1:]
+				if q == "" {
+					q = pkg
+				}
+				full := msg[:1] + q + ": " + msg[1:]
+				ns = append(ns, fmt.Sprintf("%c%d=%s", k[0], id, strings.NewReplacer(" ", "_", ",", "_", ";", "_").Replace(full)))
+			}
+			sort.Strings(ns)
+			ff.names = strings.Join(ns, ",")
 		}
 		out = append(out, ff)
 	}
@@ -600,7 +621,10 @@ func flowStd(repo string) ([]flowFunc, error) {
 // not follow). For these the clause is sampled by the compiled runs only. Everything not listed here
 // MUST be accepted by the Lean checker (`Props.C03.std_wrappers_guarded`), so a new or edited public
 // coroutine that loses its guard breaks the proof.
-var flowSampledOnly = map[string]string{}
+var flowSampledOnly = map[string]string{
+	"json.decoder.decode_tokens": "bare calls of private coroutines (decode_leading?, decode_inf_nan?, decode_comment?, decode_trailer?) that receive the reader; each tests is_closed() itself",
+	"lzw.decoder.transform_io":   "yields $short read depending on this.read_from_return_value, which read_from! sets from is_closed(): data flow through a field",
+}
 
 func leanIdent(s string) string {
 	r := strings.NewReplacer(".", "_", "-", "_")
@@ -640,7 +664,7 @@ func flowGenFile(ffs []flowFunc) string {
 			}
 			fmt.Fprintf(&b, "\n  %s%s%s", e, sep, c)
 		}
-		b.WriteString("]\n\n")
+		b.WriteString("\n  ]\n\n")
 	}
 	wl("wrappers", "The public coroutines whose bodies the checker must accept.", proved)
 	wl("sampledOnly", "Public coroutines without the wrapper shape: sampled as compiled C only.", sampled)
@@ -649,4 +673,211 @@ func flowGenFile(ffs []flowFunc) string {
 	}
 	b.WriteString("\nend WuffsVerif.Gen.C03\n")
 	return b.String()
+}
+
+// ---- the flow probe: wrappers of every shape around one inner coroutine whose answer is dictated by the
+// next input byte ('E' error, 'N' note, 'W' another suspension, anything else ok; no byte: $short read).
+
+const flowProbeStatuses = `pub status "#probe error"
+pub status "#truncated input"
+pub status "@probe note"
+pub status "$probe suspension"
+
+`
+
+const flowProbeWuffs = `
+pri func probe.inner?(src: base.io_reader) {
+    var c : base.u8
+    c = args.src.read_u8?()
+    if c == 0x45 {
+        return "#probe error"
+    } else if c == 0x4E {
+        return "@probe note"
+    } else if c == 0x57 {
+        yield? "$probe suspension"
+    }
+}
+
+pri func probe.aux!() base.status {
+    return ok
+}
+
+pub func probe.f_std?(src: base.io_reader) {
+    var status : base.status
+    while true {
+        status =? this.inner?(src: args.src)
+        if (status == base."$short read") and args.src.is_closed() {
+            return "#truncated input"
+        }
+        yield? status
+    }
+}
+
+pub func probe.f_bare?(src: base.io_reader) {
+    this.inner?(src: args.src)
+    this.inner?(src: args.src)
+}
+
+pub func probe.f_twice?(src: base.io_reader) {
+    var status : base.status
+    status =? this.inner?(src: args.src)
+    if (status == base."$short read") and args.src.is_closed() {
+        return "#truncated input"
+    }
+    yield? status
+    yield? status
+}
+
+pub func probe.f_lzma?(src: base.io_reader) {
+    var s : base.status
+    var t : base.status
+    while true {
+        s =? this.inner?(src: args.src)
+        if not s.is_suspension() {
+            return s
+        } else if (s == base."$short read") and args.src.is_closed() {
+            return "#truncated input"
+        }
+        t = this.aux!()
+        if t.is_error() {
+            return t
+        }
+        yield? s
+    }
+}
+
+pub func probe.f_jpeg?(src: base.io_reader) {
+    var s : base.status
+    while true {
+        s =? this.inner?(src: args.src)
+        if (s == base."$short read") and args.src.is_closed() {
+            s = "#truncated input"
+        }
+        if s.is_error() {
+            return s
+        }
+        yield? s
+    }
+}
+
+pub func probe.f_ret?(src: base.io_reader) {
+    var s : base.status
+    s =? this.inner?(src: args.src)
+    return s
+}
+
+pub func probe.f_lit?(src: base.io_reader) {
+    var s : base.status
+    while true {
+        s =? this.inner?(src: args.src)
+        if s == base."$short read" {
+            if args.src.is_closed() {
+                return "#truncated input"
+            }
+            yield? base."$short read"
+            continue
+        } else if s.is_ok() {
+            continue
+        }
+        yield? s
+    }
+}
+`
+
+// what the Lean checker must say about each probe wrapper (G = accepted, U = refused); for the U ones the
+// sampling below must actually observe `$short read` on a closed source in the compiled C (non-vacuity).
+var flowProbeFuncs = []struct{ name, verdict string }{
+	{"f_std", "G"}, {"f_bare", "U"}, {"f_twice", "U"}, {"f_lzma", "G"}, {"f_jpeg", "G"}, {"f_ret", "G"}, {"f_lit", "G"},
+}
+
+// flowProbe translates the probe's wrappers with the same translator as std/ (inner statuses pre-numbered 5).
+func flowProbe(src string) (map[string]flowFunc, map[string]string, error) {
+	flowPreseed = map[string]int{"ec03probe.#probe error": 5, "e.#probe error": 5, "n.@probe note": 5, "s.$probe suspension": 5}
+	defer func() { flowPreseed = nil }()
+	ffs, err := flowFile("c03probe", "probe.wuffs", []byte(src))
+	if err != nil {
+		return nil, nil, err
+	}
+	out := map[string]flowFunc{}
+	names := map[string]string{}
+	for _, f := range ffs {
+		if f.err != "" {
+			return nil, nil, fmt.Errorf("%s: %s", f.name, f.err)
+		}
+		out[strings.TrimPrefix(f.name, "probe.")] = f
+		names[strings.TrimPrefix(f.name, "probe.")] = f.names
+	}
+	return out, names, nil
+}
+
+var flowPreseed map[string]int
+
+// flowOps: `flow <fn> <ast> <names> <script>`; script = comma-separated calls `<hex of new bytes>:<closed>`.
+func flowOps(r interface {
+	Count(string)
+}, rng interface {
+	Intn(int) int
+}, n int, probes map[string]flowFunc) (ops []string, verdicts []string) {
+	alphabet := []byte("EENWWaabc")
+	for i := 0; i < n; i++ {
+		f := flowProbeFuncs[rng.Intn(len(flowProbeFuncs))]
+		p := probes[f.name]
+		ncalls := 1 + rng.Intn(6)
+		closed := 0
+		var items []string
+		for c := 0; c < ncalls; c++ {
+			nb := rng.Intn(4)
+			if rng.Intn(3) == 0 {
+				nb = 0
+			}
+			b := make([]byte, nb)
+			for k := range b {
+				if rng.Intn(2) == 0 {
+					b[k] = 'a'
+				} else {
+					b[k] = alphabet[rng.Intn(len(alphabet))]
+				}
+			}
+			switch rng.Intn(8) {
+			case 0, 1:
+				closed = 1
+			case 2:
+				if rng.Intn(4) == 0 {
+					closed = 0 // a caller that re-opens the source: unusual but not excluded
+				}
+			}
+			if c == ncalls-1 && rng.Intn(2) == 0 {
+				closed = 1
+			}
+			h := "-"
+			if nb > 0 {
+				h = fmt.Sprintf("%x", b)
+			}
+			items = append(items, fmt.Sprintf("%s:%d", h, closed))
+		}
+		names := "e0=#base:_cannot_return_a_suspension"
+		if p.names != "" {
+			names += "," + p.names
+		}
+		ops = append(ops, fmt.Sprintf("flow %s %s %s %s", f.name, p.compact, names, strings.Join(items, ",")))
+		verdicts = append(verdicts, f.verdict)
+		r.Count("flow:" + f.name)
+	}
+	return ops, verdicts
+}
+
+// flowShortReadOnClosed: did call k of the script (closed flag 1) answer $short read?
+func flowShortReadOnClosed(op, answer string) bool {
+	f := strings.Fields(op)
+	if len(f) != 5 || !strings.HasPrefix(answer, "[") {
+		return false
+	}
+	items := strings.Split(f[4], ",")
+	sts := strings.Split(strings.Trim(answer, "[]"), ",")
+	for i, st := range sts {
+		if i < len(items) && strings.HasSuffix(items[i], ":1") && strings.HasPrefix(st, "$base:_short_read:") {
+			return true
+		}
+	}
+	return false
 }
